@@ -249,7 +249,7 @@ func (d *Decoder) readTypedList(tag byte) (interface{}, error) {
 			return nil, newCodecError("readTypedList", err)
 		}
 
-		v := EnsureRawValue(item)
+		v := itemValue(item, aryType.Elem())
 		if grow {
 			cv, err := convertValue(v, aryType.Elem())
 			if err != nil {
